@@ -202,14 +202,48 @@ SCEN_THOROUGH = [
 ]
 
 
-def run(tier, seed, t0):
+def _worker(job):
+    """one scenario in a process of its own (the symbolic execution is single-threaded Python); returns plain data"""
+    shape, nm, known = job
     e3 = _e3.E3("C05")
-    for shape, nm, known in SCEN_QUICK + (SCEN_THOROUGH if tier == "thorough" else []):
-        try:
-            scenario(e3, shape, nm, known)
-        except sym.Unsupported as ex:
-            e3.error(nm, "MIR->SMT encoding of AtomicBucket / Block", ex)
-    finish("C05", tier, seed, list(e3.res.obligations), t0, ASSUME + ["E3 callee models: " + ", ".join(sorted(e3.models))], sorted(e3.functions),
+    try:
+        scenario(e3, shape, nm, known)
+    except sym.Unsupported as ex:
+        e3.error(nm, "MIR->SMT encoding of AtomicBucket / Block", ex)
+    obs = []
+    for o in e3.res.obligations:
+        d = {}
+        for k, v in o.__dict__.items():
+            try:
+                import json
+                json.dumps(v)
+                d[k] = v
+            except (TypeError, ValueError):
+                d[k] = str(v)
+        obs.append(d)
+    return obs, sorted(e3.models), sorted(e3.functions)
+
+
+def run(tier, seed, t0):
+    jobs = SCEN_QUICK + (SCEN_THOROUGH if tier == "thorough" else [])
+    # the MIR is dumped once, before the workers start (they re-use the dump of this run)
+    _e3.program(["metrics-util"])
+    obs, mods, funcs = [], set(), set()
+    if len(jobs) <= 2:
+        results = [_worker(j) for j in jobs]
+    else:
+        import concurrent.futures as cf
+        import multiprocessing as mp
+        with cf.ProcessPoolExecutor(max_workers=min(5, len(jobs)), mp_context=mp.get_context("fork")) as ex:
+            results = list(ex.map(_worker, jobs))
+    for rows, m_, f_ in results:
+        for d in rows:
+            o = Obligation(d["name"], d.get("engine", "mirsmt"), d.get("desc", ""), d.get("bounds", ""))
+            o.__dict__.update(d)
+            obs.append(o)
+        mods |= set(m_)
+        funcs |= set(f_)
+    finish("C05", tier, seed, obs, t0, ASSUME + ["E3 callee models: " + ", ".join(sorted(mods))], sorted(funcs),
            explanation="MIR->SMT partial-order encoding of AtomicBucket::{push,data_with,clear_with} and Block::{push,len,is_quiesced,data}")
 
 
